@@ -343,6 +343,61 @@ func burnHistory(s *Stream, rng *rand.Rand, steps int, allowVest bool) {
 	e.monInvariants()
 }
 
+// monSendDisabled: the bank's send switch (per denomination and the default) guards bank *messages* only; coins still
+// reach the burn address by other routes (module payouts such as withdrawn rewards, keeper-level transfers, genesis
+// balances).  With transfers of the denomination switched off the burn address must still be a sink: empty at the end
+// of the block, the supply smaller by what arrived.
+func monSendDisabled(s *Stream) {
+	for _, how := range []string{"denom-switch", "default-switch"} {
+		how := how
+		s.Emit("mon.c07.send-disabled "+how, guard(func() string {
+			old := genesisExtraCoins
+			genesisExtraCoins = nil
+			defer func() { genesisExtraCoins = old }()
+			burnAddr := sdk.MustAccAddressFromBech32(burntypes.BurnAddress)
+			A := newAcct("A", []byte("sw-A"))
+			c, err := NewChain(memDB(), tmpHome(), []*Acct{A}, 1000000, nil)
+			if err != nil {
+				return "pass #no-chain"
+			}
+			t := c.Time.Add(5 * time.Second)
+			c.Begin(t)
+			ctx := c.DeliverCtx()
+			if how == "denom-switch" {
+				c.App.BankKeeper.SetSendEnabled(ctx, feeDenom, false)
+			} else {
+				p := c.App.BankKeeper.GetParams(ctx)
+				p.DefaultSendEnabled = false
+				if err := c.App.BankKeeper.SetParams(ctx, p); err != nil {
+					return "pass #cannot-set-params"
+				}
+			}
+			if c.App.BankKeeper.IsSendEnabledDenom(ctx, feeDenom) {
+				return "pass #switch-not-off"
+			}
+			c.End()
+			c.Commit()
+			t = t.Add(5 * time.Second)
+			c.Begin(t)
+			ctx = c.DeliverCtx()
+			sup0 := c.App.BankKeeper.GetSupply(ctx, feeDenom).Amount
+			if err := c.App.BankKeeper.SendCoins(ctx, A.Addr, burnAddr, sdk.NewCoins(sdk.NewInt64Coin(feeDenom, 7))); err != nil {
+				return "pass #cannot-send " + err.Error()
+			}
+			c.End()
+			ctx = c.DeliverCtx()
+			if left := c.App.BankKeeper.SpendableCoins(ctx, burnAddr); !left.IsZero() {
+				return "fail #burn-address-not-empty-at-end-of-block " + left.String()
+			}
+			if got := sup0.Sub(c.App.BankKeeper.GetSupply(ctx, feeDenom).Amount); !got.Equal(sdk.NewInt(7)) {
+				return "fail #supply-did-not-shrink-by-what-reached-the-burn-address shrank=" + got.String()
+			}
+			c.Commit()
+			return "pass"
+		}))
+	}
+}
+
 func init() {
 	streams["burn"] = func(dir string, rng *rand.Rand, n int, tier string) {
 		s := NewStream(dir, "burn")
@@ -350,6 +405,7 @@ func init() {
 		monEndBlockMovers(s)
 		monModuleAccountRecipient(s, "mon.c07.module-account-recipient")
 		monInvariantCheckPeriod(s)
+		monSendDisabled(s)
 		for h := 0; h < n; h++ {
 			burnHistory(s, rng, 10+rng.Intn(25), true)
 		}
